@@ -75,7 +75,7 @@ def matched_text(ttype, rx, c):
     if ttype == "SEPARATOR":
         m = SymStr(name="m")
         c.assume(z3.Length(m.t) >= 1)
-        c.assume_late(z3.InRe(m.t, z3.Plus(ext._union(ext._range_re(a, b) for a, b in ext.category_ranges("space")))))
+        c.assume_late(z3.InRe(m.t, parsing.WS_PLUS))
         return m
     if ttype == "TERM":
         m = SymStr(name="m")
